@@ -34,7 +34,7 @@ class Contract:
                  invariants=None, serves=(), trusted=False, module=None, locals=None,
                  inline=False, note='', cut_before=None, kwparams=None, pure=False,
                  effects_exc=(), vararg=None, assume_after=None, abstract=None,
-                 ghost_in_body=None, observe=(), generator=False, defaults=None, kwarg=None, kwarg_keys=()):
+                 ghost_in_body=None, observe=(), generator=False, defaults=None, kwarg=None, kwarg_keys=(), exc_fields=None):
         self.name = name
         self.params = dict(params or {})
         self.returns = returns
@@ -61,6 +61,7 @@ class Contract:
         self.ghost_in_body = dict(ghost_in_body or {})  # {stmt source prefix: ghost statements run after it}
         self.observe = list(observe)           # spec expressions evaluated under a counter-model (for replay)
         self.generator = generator
+        self.exc_fields = dict(exc_fields or {})
         self.kwarg, self.kwarg_keys = kwarg, list(kwarg_keys)
         self.defaults = dict(defaults or {})
 
@@ -84,6 +85,7 @@ class World:
         self.consts = {}       # name -> python constant usable in specs (e.g. MERGEABLE)
         self.externals = {}    # dotted/global name in repo code -> contract name
         self.lemmas = []
+        self.module_names = set()   # global names of the real module treated as opaque objects/modules
         self.kinds = {}        # name -> Kind usable as a quantifier domain in specs
 
     # -- declaration helpers
